@@ -171,6 +171,20 @@ def classify(diag, unit):
         return name, props, site, 'explicit'
     kind = re.sub(r'[^a-z0-9]+', '_', msg.lower()).strip('_')[:48]
     fn = site['fn'] if site else 'unknown'
+    # an untagged line written in a template (loop invariant, proof hint) is a proof artefact, not a panic site
+    prim = [sp for sp in spans if sp.get('is_primary')] or spans
+    pl = prim[0]['line_start'] if prim else 0
+    if 0 < pl <= len(unit.origin) and unit.origin[pl - 1][0] == 'tpl' and unit.fn_at(pl):
+        fa = [f for f in unit.fns if f[0] <= pl <= f[1]][0]
+        if msg.startswith('invariant not satisfied'):
+            # belongs to every property the contract clauses of its function are tagged with
+            props = []
+            for k in range(fa[0] - 1, min(fa[1], len(unit.lines))):
+                if unit.origin[k][0] == 'tpl':
+                    for m in TAG_RE.finditer(unit.lines[k]):
+                        props += [q for q in m.group(1).split('+') if q not in props]
+            return 'loop_invariant_of_%s' % fn, props, site, 'explicit'
+        return 'proof_hint.%s.%s' % (fn, kind), [], site, 'hint'
     return 'implicit.%s.%s' % (fn, kind), ['C04'], site, 'implicit'
 
 
@@ -202,6 +216,8 @@ def trusted_scan(text):
     return items
 
 
+# a one-line proof hint in a template: `assert(..);` or a lemma call `lemma_x(..);` (only adds facts for the solver)
+HINT_STMT = re.compile(r'^(\s*)(?:assert\(.*\)|(?:\w+::)*lemma_\w+(?:::<[^;]*>)?\(.*\));\s*(?://.*)?$')
 CANARY_RX = re.compile(r'CANARY:(\S+)')
 
 
@@ -255,9 +271,28 @@ def run_unit(unit_name, repo, outdir, extra=()):
                 lines[k] = '{ proof { if vx_canary_flag() { assert(false); } } //@ CANARY:%s' % cid
                 names.append(cid)
                 break
-    text = '\n'.join(lines)
     path = os.path.join(outdir, unit_name + '.rs')
-    rc, diags, summary, wall, raw, cached = cached_verus(path, text, extra)
+    dropped_hints = []
+    for attempt in range(4):
+        text = '\n'.join(lines)
+        rc, diags, summary, wall, raw, cached = cached_verus(path, text, extra)
+        # A failing untagged proof-hint assertion of a template is not an obligation of any property: hints only
+        # help the solver.  It is dropped and the unit verified again, so that what fails in the end is a tagged
+        # clause (the property that is really broken) or nothing (the hint was not needed).
+        hint_lines = set()
+        for d in diags:
+            if d['level'] == 'error' and (d['message'].startswith('assertion failed') or d['message'].startswith('precondition not satisfied')) and not is_canary(d):
+                for sp in d.get('spans', []):
+                    ln = sp['line_start']
+                    if sp.get('is_primary') and sp['line_start'] == sp['line_end'] and ln - 1 < len(lines) and u.origin[ln - 1][0] == 'tpl' \
+                            and not TAG_RE.search(lines[ln - 1]) and HINT_STMT.match(lines[ln - 1]):
+                        hint_lines.add(ln)
+        if not hint_lines or attempt == 3:
+            break
+        for ln in sorted(hint_lines):
+            dropped_hints.append('%s:%d: %s' % (u.origin[ln - 1][1], u.origin[ln - 1][2], lines[ln - 1].strip()))
+            lines[ln - 1] = HINT_STMT.sub(lambda m: m.group(1) + '/* failing proof hint dropped */', lines[ln - 1])
+    u.dropped_hints = dropped_hints
     return u, rc, diags, summary, wall, raw, path, names, cached
 
 
@@ -353,9 +388,21 @@ def main():
             if 'rlimit' in d['message'] or 'resource limit' in d['message'].lower():
                 undecided.append('%s: resource limit on %s' % (un, name))
                 continue
+            if kind == 'hint':
+                # a proof hint that fails and cannot be dropped mechanically: the proof does not go through, which
+                # clause is affected is unknown -> undecided for the properties of that function, never an alarm
+                fa = [f for f in u.fns if site and f[2] == site.get('fn')]
+                fprops = set()
+                for f in fa:
+                    for k in range(f[0] - 1, min(f[1], len(u.lines))):
+                        for m in TAG_RE.finditer(u.lines[k]):
+                            fprops.update(m.group(1).split('+'))
+                if pid in fprops or not fa:
+                    undecided.append('%s: %s failed' % (un, name))
+                continue
             failures.append((un, name, props, site, kind, d.get('rendered') or d['message']))
         times = (summary or {}).get('times-ms', {})
-        unit_reports.append({'unit': un, 'verus_wall_s': round(wall, 2), 'result_reused_from_identical_verifier_input': cached,
+        unit_reports.append({'unit': un, 'verus_wall_s': round(wall, 2), 'failing_proof_hints_dropped_and_unit_reverified': getattr(u, 'dropped_hints', []), 'result_reused_from_identical_verifier_input': cached,
                              'verus_verified': vr.get('verified'), 'verus_errors_incl_required_canary_failures': vr.get('errors'),
                              'errors_other_than_canaries': len(errs), 'smt_ms': (times.get('smt') or {}).get('total'), 'file': path})
         # vacuity guard
